@@ -184,7 +184,7 @@ class SuitObject(PrettyPrintHelperMixin):
 
     @staticmethod
     def reject_shared_values(data: Any) -> None:
-        """Refuse CBOR value sharing (tags 28/29), a shared container is expanded again by every re-serialization."""
+        """Refuse CBOR value sharing (tags 28/29), a shared item is expanded again by every re-serialization."""
         seen = set()
         pending = [data]
         while pending:
@@ -195,9 +195,11 @@ class SuitObject(PrettyPrintHelperMixin):
                 children = [*item.keys(), *item.values()]
             elif isinstance(item, (list, tuple, set, frozenset)):
                 children = list(item)
+            elif isinstance(item, (bytes, str)) and len(item) > 1:
+                children = []
             else:
                 continue
-            if not children:
+            if not children and not isinstance(item, (bytes, str)):
                 continue
             if id(item) in seen:
                 raise ValueError("CBOR shared values are not supported!")
